@@ -375,6 +375,8 @@ def exec_sem(case) -> Result:
         if sc == 'g':
             return gf(i)
         kind, obj = sc.split(':')
+        if obj not in objs:
+            objs[obj] = KA()  # many short-lived instances: one 'self'-scoped semaphore key each
         return getattr(objs[obj], 'cm' if kind == 'c' else 'sm')(i)
 
     async def run_phase(idx):
@@ -519,6 +521,17 @@ class SemFamily(Family):
                 if rng.random() < 0.15:
                     c['raises'] = True
                 callers.append(c)
+            if j % 7 == 3:
+                # a process with many decorated instances: 70 'self'-scoped keys are created while another scope is partly held
+                extra = []
+                t0 = 0.05
+                for k in range(70):
+                    extra.append({'scope': f's:X{k}', 'at': round(t0 + k * 2e-3 + 7e-5, 6), 'dur': round(0.01 + k * 1.3e-5, 6)})
+                late_scope = rng.choice([c['scope'] for c in callers])
+                for k in range(rng.randint(1, 3)):
+                    extra.append({'scope': late_scope, 'at': round(0.25 + k * 3.1e-3, 6), 'dur': round(0.5 + k * 1.9e-4, 6)})
+                callers = callers + extra
+                ncall = len(callers)
             base = {'family': self.name, 'limit': L, 'lax': lax, 'sem_timeout': sem_to, 'callers': callers}
             i += 1
             yield dict(base, i=i)
